@@ -51,7 +51,7 @@ PARTIAL = ("The theorems are about the registry state machine (all operation seq
            "created inside the probing handler")
 
 KNOWN = {42: "C07-late-wakeup-fewer-probes", 43: "C07-speaks-under-given-up-name", 44: "C07-record-joins-inflight-probe",
-         45: "C07-probe-created-in-handler-no-timer"}
+         45: "C07-probe-created-in-handler-no-timer", 46: "C07-host-rename-skips-reprobe"}
 
 
 def project(case_line, raw):
